@@ -479,12 +479,12 @@ def check(program, rep):
     program.module(CX)
     program.module(MC)
     program.module(BMP)
-    r1_decorator(program, rep)
-    r2_pairing(program, rep)
-    r3_roles(program, rep)
-    r4_satisfiable(program, rep)
-    r5_connection(program, rep)
-    r6_link(program, rep)
+    rep.guard("C18-R1", r1_decorator, program, rep)
+    rep.guard("C18-R2", r2_pairing, program, rep)
+    rep.guard("C18-R3", r3_roles, program, rep)
+    rep.guard("C18-R4", r4_satisfiable, program, rep)
+    rep.guard("C18-R5", r5_connection, program, rep)
+    rep.guard("C18-R6", r6_link, program, rep)
     import sys
     rep.assume("interpreter = %d.%d (the one the suite runs under)" %
                sys.version_info[:2])
